@@ -31,6 +31,8 @@ def run(chk):
     runner = os.path.join(common.EXTRACT, "model_runner")
     c10.build_shim()
     c10.probe_exit_rounds()
+    if chk.tier == "thorough":
+        c10.run_coqchk(chk, "C11")
     wd = common.workdir("C11")
     B = os.stat(wd).st_blksize
     quick = chk.tier == "quick"
